@@ -126,47 +126,6 @@ func scalarIsNull(n *yaml.Node) bool {
 	return ok && v == nil
 }
 
-// hasGroupLabelKeyAlias (known finding C01-group-label-key-alias): a group whose `labels` mapping (read through an alias)
-// has an alias node as a key.
-func hasGroupLabelKeyAlias(docs []parser.VerifDoc) bool {
-	found := false
-	for _, d := range docs {
-		walkForest(d.Node, map[*yaml.Node]bool{}, func(n *yaml.Node) {
-			if n.Kind != yaml.MappingNode {
-				return
-			}
-			for i := 0; i+1 < len(n.Content); i += 2 {
-				if n.Content[i].Value != "groups" || n.Content[i+1].Kind != yaml.SequenceNode {
-					continue
-				}
-				for _, g := range n.Content[i+1].Content {
-					if g.Alias != nil {
-						g = g.Alias
-					}
-					if g.Kind != yaml.MappingNode {
-						continue
-					}
-					for j := 0; j+1 < len(g.Content); j += 2 {
-						if g.Content[j].Value != "labels" {
-							continue
-						}
-						lv := g.Content[j+1]
-						if lv.Alias != nil {
-							lv = lv.Alias
-						}
-						for k := 0; k+1 < len(lv.Content); k += 2 {
-							if lv.Content[k].Kind == yaml.AliasNode {
-								found = true
-							}
-						}
-					}
-				}
-			}
-		})
-	}
-	return found
-}
-
 func hasAliasOrMerge(docs []parser.VerifDoc) bool {
 	found := false
 	for _, d := range docs {
@@ -368,8 +327,6 @@ func runC01(args []string) int {
 			switch {
 			case hasNonAliasMerge(docs):
 				known = "C01-merge-not-alias"
-			case hasGroupLabelKeyAlias(docs):
-				known = "C01-group-label-key-alias"
 			}
 			if known != "" {
 				rep.failKnown(fmt.Sprint(id), what, kept, known)
